@@ -25,6 +25,8 @@ impl Stream for St {
         if self.pend_first { self.pend_first = false; cx.waker().wake_by_ref(); return Poll::Pending; }
         if self.left == 0 { Poll::Ready(None) } else { self.left -= 1; let v = self.next; self.next = v.wrapping_add(1); Poll::Ready(Some(v)) }
     }
+    // an honest size hint: exactly `left` items remain (a stream with nothing left may still be Pending)
+    fn size_hint(&self) -> (usize, Option<usize>) { (self.left as usize, Some(self.left as usize)) }
 }
 //@ prefix=p_stream kind=property clause=Stream through an opaque object: poll_next reaches the implementation once per poll and returns Pending / Ready(Some(item)) / Ready(None) unchanged; a wake inside the poll reaches the caller's original waker
 #[kani::proof]
